@@ -626,6 +626,39 @@ def r8_defval(chk):
     for k, frag in (('oid', "== 'ObjectIdentifier'"), ('bits', "== 'Bits'"), ('enum', "in ('Integer32', 'Integer')")):
         chk.ob('C05.R8', 'genDefVal/label-%s' % k, any(frag in t for t in tests), where(mod, fn),
                'no label branch for base type %s' % k)
+    # entry guards: no DEFVAL clause -> no default; first pass (no object name yet) -> the clause is handed back
+    body = [st for st in fn.body if not (isinstance(st, ast.Expr) and isinstance(st.value, ast.Constant))]
+    g1 = body[0] if body else None
+    ok1 = isinstance(g1, ast.If) and norm(g1.test) == 'not %s' % dp and len(g1.body) == 1 and \
+        isinstance(g1.body[0], ast.Return) and isinstance(g1.body[0].value, ast.Dict) and not g1.body[0].value.keys
+    chk.ob('C05.R8', 'genDefVal/no-clause-no-default', ok1, where(mod, g1 or fn),
+           'the function must start with `if not %s: return {}` (found `%s`): an object without DEFVAL has no default, '
+           'one with DEFVAL is not cut short' % (dp, norm(g1)[:60] if g1 is not None else None))
+    g2 = body[1] if len(body) > 1 else None
+    on = fn.args.args[2].arg if len(fn.args.args) > 2 else 'objname'
+    ok2 = isinstance(g2, ast.If) and norm(g2.test) == 'not %s' % on and len(g2.body) == 1 and \
+        isinstance(g2.body[0], ast.Return) and _key_is(g2.body[0].value, dp)
+    chk.ob('C05.R8', 'genDefVal/first-pass-hands-the-clause-back', ok2, where(mod, g2 or fn),
+           'second statement must be `if not %s: return %s` (found `%s`)' % (on, dp, norm(g2)[:60] if g2 is not None
+                                                                              else None))
+    # the label chain ends in a package error: a label that is neither an OID, an enumeration label nor a bit name
+    chain = [st for st in body if isinstance(st, ast.If) and need['number'] == norm(st.test)]
+    last_else = None
+    if chain:
+        cur = chain[0]
+        while cur.orelse and len(cur.orelse) == 1 and isinstance(cur.orelse[0], ast.If):
+            cur = cur.orelse[0]
+        inner = [st for st in cur.orelse if isinstance(st, ast.If)]
+        last_else = cur.orelse
+        if inner:
+            cur = inner[0]
+            while cur.orelse and len(cur.orelse) == 1 and isinstance(cur.orelse[0], ast.If):
+                cur = cur.orelse[0]
+            last_else = cur.orelse
+    rs = [x for x in (last_else or []) if isinstance(x, ast.Raise) and x.exc is not None and 'PySmiError' in
+          model.exc_ancestors(mod, x.exc.func if isinstance(x.exc, ast.Call) else x.exc)]
+    chk.ob('C05.R8', 'genDefVal/unknown-label-raises', bool(rs), where(mod, fn),
+           'a DEFVAL label that fits no base type must end in a package error (final else of the label chain)')
     # shape-typed comparison
     tvars = set()
     for s in walk_no_nested(fn):
@@ -1070,12 +1103,61 @@ def r12_literals_reach_the_generators_as_written(chk):
     """hex and binary literals are converted by the code generators from the digits the MIB wrote: the lexer must not
     trim or rewrite them (shared with C02.R4)"""
     from rules.C02 import r4_token_values
-    common.reuse(chk, r4_token_values, ('C02.R4',), 'C05.R12',
+    common.reuse(chk, r4_token_values, ('C02.R4',), 'C05.R15',
                  'among the lexer rules only t_NUMBER assigns t.value; HEX_STRING / BIN_STRING tokens carry the literal '
                  'exactly as written (leading zeros included), so range bounds and DEFVALs are converted from the '
                  'digits of the text (C02.R4)', floor=2)
 
 
+
+def r_absent_values_C05_R14(chk):
+    """optional clause parts are used where they are present, not where they are absent"""
+    common.no_value_taken_from_an_absent_operand(chk, 'C05.R14', ['pysmi/codegen/intermediate.py', 'pysmi/codegen/symtable.py', 'pysmi/codegen/base.py'], floor=2)
+
+
+
+def r16_subtype_reaches_the_record(chk):
+    """SimpleSyntax delivers (type name[, subtype]): genSimpleSyntax of both generators takes the subtype from the
+    second component when there is one and stores / returns it"""
+    model = chk.model
+    chk.doc('C05.R16', 'genSimpleSyntax (IR and symbol table): <subtype> = <data>[1] when len(<data>) == 2, otherwise an empty '
+                       'value (`len(d) == 2 and d[1] or {}` or a conditional expression); the IR stores it as '
+                       '`constraints`, the symbol table returns it as the second component of the syntax pair')
+    for rel, cname, empty in ((INTER, 'IntermediateCodeGen', '{}'), (ir.SYMTAB, 'SymtableCodeGen', "''")):
+        ci = model.cls(rel, cname)
+        o, fn = ci.find_method('genSimpleSyntax')
+        d = fn.args.args[1].arg
+        asg = [s for s in walk_no_nested(fn) if isinstance(s, ast.Assign) and isinstance(s.targets[0], ast.Name) and
+               norm(s.value) in ('len(%s) == 2 and %s[1] or %s' % (d, d, empty),
+                                 '%s[1] if len(%s) == 2 else %s' % (d, d, empty),
+                                 'len(%s) > 1 and %s[1] or %s' % (d, d, empty),
+                                 '%s[1] if len(%s) > 1 else %s' % (d, d, empty))]
+        chk.ob('C05.R16', '%s.genSimpleSyntax/subtype-source' % cname, len(asg) == 1, where(ci.mod, fn),
+               'no assignment `<subtype> = len(%s) == 2 and %s[1] or %s` (or its conditional-expression form)' % (d, d, empty))
+        if not asg:
+            continue
+        sv = asg[0].targets[0].id
+        if cname == 'IntermediateCodeGen':
+            st = [s for s in ir.record_stores(fn) if s.key == ('constraints',)]
+            chk.ob('C05.R16', '%s.genSimpleSyntax/subtype-stored' % cname, len(st) == 1 and _key_is(st[0].value, sv),
+                   where(ci.mod, fn), 'outDict["constraints"] must be the subtype')
+        else:
+            rets = [x for x in walk_no_nested(fn) if isinstance(x, ast.Return) and isinstance(x.value, ast.Tuple)]
+            ok = bool(rets) and all(len(x.value.elts) == 2 and _key_is(x.value.elts[1], sv) for x in rets)
+            chk.ob('C05.R16', '%s.genSimpleSyntax/subtype-returned' % cname, ok, where(ci.mod, fn),
+                   'the syntax pair must carry the subtype as its second component')
+
+
+
+def r17_default_stored_whenever_present(chk):
+    """shared with C03.R14: the default is stored under nothing but its own presence"""
+    r14 = __import__('rules.C03', fromlist=['r14_record_completeness']).r14_record_completeness
+    common.reuse(chk, r14, ('C03.R14',), 'C05.R17',
+                 'genObjectType stores the resolved DEFVAL, the syntax record (constraints) and the units whenever the '
+                 'clause supplies them: the store depends on the truthiness of that component alone (C03.R14)',
+                 keep=lambda o: any(k in o.key for k in ('default', 'syntax', 'units')), floor=2)
+
+
 RULES = [r1_number_classifier, r2_value_alternatives, r3_literal_conversion, r4_ranges, r5_enum_bits,
          r7_base_type_walk, r8_defval, r9_syntax_productions, r10_collectors, r11_guard_slice_agreement,
-         r12_defval_decision_table, r6_constraints_macro, r13_labels_compared_as_written, r12_literals_reach_the_generators_as_written]
+         r12_defval_decision_table, r6_constraints_macro, r13_labels_compared_as_written, r12_literals_reach_the_generators_as_written, r_absent_values_C05_R14, r16_subtype_reaches_the_record, r17_default_stored_whenever_present]
